@@ -13,7 +13,7 @@ TECH = ('symbolic execution of rustc MIR (mirsym) + z3 over symbolic Files/Deps 
 PLAN = {
     'C02': ['kernel', 'quiet_memo', 'two_phase'],
     'C03': ['kernel', 'should_build', 'stamp', 'unlocked', 'env_inherit', 'record'],
-    'C05': ['kernel', 'set_failed', 'should_build', 'record', 'job_completion', 'script_args'],
+    'C05': ['sched', 'kernel', 'set_failed', 'should_build', 'record', 'job_completion', 'script_args'],
     'C12': ['kernel', 'cycles', 'env_inherit'],
     'C14': ['kernel', 'ifcreate_always', 'stamp'],
     'C17': ['kernel', 'roles', 'ood'],
@@ -36,7 +36,11 @@ def main(pid):
         for ob in PLAN[pid]:
             if only and ob not in only.split(','):
                 continue
-            if ob == 'kernel':
+            if ob == 'sched':
+                from specs import schedcheck
+                schedcheck.explore(chk, pid, scn)
+                schedcheck.uninstall(eng)
+            elif ob == 'kernel':
                 wkw = None
                 if pid == 'C14':
                     # a watched path may come into existence as a directory
